@@ -118,10 +118,20 @@ def hexopts(opts):
 
 # ----------------------------------------------------------------------------- running a script
 
+def opath_str(opts):
+    """the Uri-Path the request is sent with, as the `opath` field of a model line"""
+    comps = [v for n, v in opts if n == 11]
+    return "p" + ".".join(U.hexs(c) for c in comps)
+
+
 def run_script(aiocoap, script, direct=False):
     """Run one R script on the implementation.  Returns (model line, impl output, observations).
-    direct=True: against bare Block1Spool/Block2Cache objects instead of a Resource."""
+    direct=True: against bare Block1Spool/Block2Cache objects instead of a Resource.
+    A step is a request (optionally `hold`: its handler suspends when it is invoked) or
+    `{"fin": j, "dt": ..}`: the handler invoked for step j goes on and ends.  `script["site"]`: the
+    requests are given to a `Site` at which the resources are registered (U.SITE_PATHS)."""
     w = U.World(aiocoap)
+    site = bool(script.get("site")) and not direct
     try:
         if direct:
             w.make_direct(4)
@@ -138,10 +148,43 @@ def run_script(aiocoap, script, direct=False):
         T = U.ticks_of(ts.pop())
         keyids = {}
         toks, outs, obs = [], [], []
+        held = {}
+        res_of = {}
+
+        def answer(h, hopts, resp, exc, is_open):
+            rp = bytes(resp.payload)
+            ropts = U.opts_of(resp)
+            observing = False
+            if h.entry == "o" and is_open and not any(n == 6 for n, _ in hexopts(hopts)):
+                # the first response of an accepted observation: the Observe option put on it is
+                # the observation's business (C08), everything else is judged as usual
+                observing = (6, b"") in ropts
+                ropts = [x for x in ropts if x != (6, b"")]
+            tok = (f"{int(resp.code)}|{U.blk_str(resp.opt.block1)}|{U.blk_str(resp.opt.block2)}|"
+                   f"{U.opts_str(ropts)}|{'-' if exc else U.hexs(rp)}")
+            o = {"code": int(resp.code),
+                 "b1": None if resp.opt.block1 is None else tuple(int(x) for x in resp.opt.block1),
+                 "b2": None if resp.opt.block2 is None else tuple(int(x) for x in resp.opt.block2),
+                 "opts": ropts, "payload": rp, "exc": exc, "open": is_open, "observing": observing}
+            return tok, o
 
         async def whole():
             for i, st in enumerate(script["steps"]):
                 await w.loop.aadvance(st["dt"])
+                if "fin" in st:
+                    j = st["fin"]
+                    toks.append(f"F,{res_of.get(j, 0)},{st['dt']},{j}")
+                    ent = held.pop(j, None)
+                    if ent is None:
+                        outs.append("n")
+                        obs.append({"fin": j, "none": True})
+                        continue
+                    h, hopts = ent
+                    resp, exc, is_open = await w.finish(h, release=True)
+                    tok, o = answer(h, hopts, resp, exc, is_open)
+                    outs.append(tok + "|-|-")
+                    obs.append(dict(o, fin=j, seen=[], entry=h.entry, obs_payload=None))
+                    continue
                 ep = script["eps"][st["ep"]]
                 epd = (tuple(ep[0]), None if ep[1] is None else bytes.fromhex(ep[1]), ep[2], ep[3])
                 payload = mk_bytes(st["payload"])
@@ -154,43 +197,49 @@ def run_script(aiocoap, script, direct=False):
                 hpayload = mk_bytes(hspec)
                 ppay = bytes(msg.payload)
                 pspec = spec_str(st["payload"]) if ppay == payload else U.hexs(ppay)
-                observable = (not direct) and w.observable[st["res"]]
+                hold = bool(st.get("hold"))
+                sr = (hcode, hexopts(hopts), hpayload, hexc)
+                if direct:
+                    h, pending = await w.arrive_direct(st["res"], bool(st["asm"]), msg, sr, hold)
+                    res, seen_by = st["res"], msg
+                else:
+                    h, pending = await w.arrive(st["res"], bool(st["asm"]), msg, sr, hold, site=site)
+                    if h.res_index is None:
+                        raise HarnessError(f"step {i}: the request did not reach a resource")
+                    res, seen_by = h.res_index, h.entered
+                    if not site and res != st["res"]:
+                        raise HarnessError("request entered another resource")
+                res_of[i] = res
+                observable = (not direct) and w.observable[res]
                 toks.append(",".join([
-                    str(st["res"]), str(st["dt"]), str(st["asm"]), str(rid),
+                    str(res), str(st["dt"]), str(st["asm"]), str(rid),
                     str(msg.remote.maximum_payload_size), str(msg.remote.maximum_block_size_exp),
                     str(int(msg.code)), U.blk_raw(msg, 27), U.blk_raw(msg, 23),
-                    U.opts_str(U.opts_of(msg)), pspec,
+                    U.opts_str(U.opts_of(seen_by)), pspec,
                     ("!" if hexc else "") + str(hcode), U.opts_str(hexopts(hopts)), spec_str(hspec),
-                    "1" if observable else "0"]))
-                call = w.request_direct if direct else w.request
-                resp, exc, seen = await call(st["res"], bool(st["asm"]), msg,
-                                             (hcode, hexopts(hopts), hpayload, hexc))
-                rp = bytes(resp.payload)
-                ropts = U.opts_of(resp)
-                observing = False
-                if w.last_entry == "o" and w.last_open and not any(n == 6 for n, _ in hexopts(hopts)):
-                    # the first response of an accepted observation: the Observe option put on it is
-                    # the observation's business (C08), everything else is judged as usual
-                    observing = (6, b"") in ropts
-                    ropts = [x for x in ropts if x != (6, b"")]
+                    "1" if observable else "0",
+                    opath_str(hexopts(st["opts"])) if site else "-",
+                    "1" if hold else "0"]))
+                seen = h.seen
                 if len(seen) == 0:
                     s = "-"
                 else:
                     c, b1, b2, so, sp = seen[0]
                     s = ("H" if len(seen) == 1 else f"H{len(seen)}") + \
                         f"~{c}~{U.blk_str(b1)}~{U.blk_str(b2)}~{U.opts_str(so)}~{U.hexs(sp)}"
-                outs.append(f"{int(resp.code)}|{U.blk_str(resp.opt.block1)}|{U.blk_str(resp.opt.block2)}|"
-                            f"{U.opts_str(ropts)}|{'-' if exc else U.hexs(rp)}|{s}|{w.last_entry}")
-                obs.append({
-                    "code": int(resp.code),
-                    "b1": None if resp.opt.block1 is None else tuple(int(x) for x in resp.opt.block1),
-                    "b2": None if resp.opt.block2 is None else tuple(int(x) for x in resp.opt.block2),
-                    "opts": ropts, "payload": rp, "exc": exc,
-                    "seen": [(c, sp, so) for (c, _b1, _b2, so, sp) in seen],
-                    "entry": w.last_entry, "open": w.last_open, "observing": observing,
-                    # what an observable resource was handed for its observation (and would be handed again
-                    # for every later notification): the payload of that request
-                    "obs_payload": bytes(w.obs_calls[-1][3]) if w.last_entry == "o" else None})
+                common = {"seen": [(c, sp, so) for (c, _b1, _b2, so, sp) in seen], "entry": h.entry,
+                          # what an observable resource was handed for its observation (and would be
+                          # handed again for every later notification): the payload of that request
+                          "obs_payload": bytes(h.obs_call[3]) if h.entry == "o" and h.obs_call else None}
+                if pending:
+                    held[i] = (h, hopts)
+                    outs.append(f"~|-|-|_|-|{s}|{h.entry}")
+                    obs.append(dict(common, pending=True))
+                    continue
+                resp, exc, is_open = await w.finish(h)
+                tok, o = answer(h, hopts, resp, exc, is_open)
+                outs.append(f"{tok}|{s}|{h.entry}")
+                obs.append(dict(o, **common))
 
         w.loop.run_until_complete(whole())
         return f"C06 R {T} " + " ".join(toks), " ".join(outs), obs
@@ -259,19 +308,26 @@ def check_block2(gb2, R, o, mps, mps_fit=None):
 
 class Reference:
     """Independent RFC 7959 server reference that judges one observation at a time and follows
-    the implementation where the property leaves a choice (lifetime between T and 2T)."""
+    the implementation where the property leaves a choice (lifetime between T and 2T).
 
-    def __init__(self, eps):
+    Requests may overlap: `step` judges a request when it arrives (everything up to the handler),
+    `finish` when its handler has ended (the response); for a request whose handler does not suspend
+    the two happen at once.  "The latest block-0 request" is the one that ARRIVED last."""
+
+    def __init__(self, eps, site=False):
         self.eps = eps
-        self.asm = {}     # (res, key) -> dict(blocks, length, last, certain)
-        self.rend = {}    # (res, key) -> dict(R, last, kept)
+        self.site = site
+        self.asm = {}     # key -> dict(blocks, length, last, certain)
+        self.rend = {}    # key -> dict(R, last, kept)
+        self.building = {}   # key -> step index of the latest block-0 request while it has no rendering yet
+        self.pending = {}    # step index -> what is needed to judge the response when it comes
 
     @staticmethod
     def alive(now, last):
         idle = now - last
         return "yes" if idle < T_RFC else ("no" if idle >= 2 * T_RFC else "maybe")
 
-    def step(self, now, st, o):
+    def step(self, now, idx, st, o):
         ep = self.eps[st["ep"]]
         ident = (tuple(ep[0]), ep[1])
         mps = ep[2]
@@ -279,24 +335,28 @@ class Reference:
         # one body then arrive with different values): "fits" is judged against the smallest of them
         mps_fit = min(e[2] for e in self.eps if (tuple(e[0]), e[1]) == ident)
         opts = hexopts(st["opts"])
-        key = (st["res"], ident, st["code"], cache_key_opts(opts))
+        # one endpoint, one method, one set of cache-key options -- Uri-Path is one of them.  Resources
+        # that are addressed directly (no Site) are told apart by their index.
+        key = ("site" if self.site else st["res"], ident, st["code"], cache_key_opts(opts))
         payload = mk_bytes(st["payload"])
         hcode, hopts, hspec = st["h"][:3]
         hexc = h_exc(st["h"])
         R = (hcode, hexopts(hopts), mk_bytes(hspec))
         seen = o["seen"]
-        if o["code"] >= 160 and o["exc"] and not (seen and hexc):
+        pending = bool(o.get("pending"))
+        if not pending and o["code"] >= 160 and o["exc"] and not (seen and hexc):
             # an error the machinery produced (a 5.xx message the handler returned is judged below
             # as its rendering; an exception the handler raised as its outcome)
             return f"5.xx response {o['code']} ({o['exc']})"
         if len(seen) > 1:
             return f"handler invoked {len(seen)} times for one request"
+        if pending and not seen:
+            raise HarnessError("request pending without a handler invocation")
         if not st["asm"]:
             if len(seen) != 1 or seen[0][1] != payload:
                 return "resource without block-wise assembly did not get the request as it came"
-            if hexc and not (o["exc"] and o["code"] == EXC_CODES[hexc]):
-                return f"handler raised {hexc}, answered {o['code']}"
-            return ""
+            self.pending[idx] = {"kind": "plain", "hexc": hexc}
+            return "" if pending else self.finish(now, idx, o)
         b1 = st["b1"]
         if b1 is None:
             body = payload
@@ -307,8 +367,9 @@ class Reference:
             al = self.alive(now, a["last"]) if a else "no"
             if a and not a["certain"] and al == "yes":
                 al = "maybe"
-            if more:       # RFC 7959 2.2: with M set the payload is exactly 2**(SZX+4) bytes (BERT: a multiple of 1024)
-                size_bad = not (len(payload) == size or (szx == 7 and len(payload) % 1024 == 0))
+            if more:       # RFC 7959 2.2: with M set the payload is exactly 2**(SZX+4) bytes (BERT, RFC 8323 6:
+                           # one or more whole 1024 byte blocks -- not none)
+                size_bad = not (len(payload) == size or (szx == 7 and len(payload) % 1024 == 0 and len(payload) > 0))
             else:          # the last block may be shorter, not longer (BERT: no bound)
                 size_bad = szx != 7 and len(payload) > size
             exp = set()
@@ -328,7 +389,9 @@ class Reference:
                         exp.add(408)
                     else:
                         exp.add("accept")
-            if o["code"] == 136 and o["exc"]:
+            if pending:
+                got = "accept"
+            elif o["code"] == 136 and o["exc"]:
                 got = 408
             elif o["code"] == 128 and o["exc"] and not seen:
                 got = 400
@@ -339,7 +402,8 @@ class Reference:
                 got = "accept"
             if got not in exp:
                 return (f"Block1 {tuple(b1)} with {len(payload)} bytes: expected one of {sorted(map(str, exp))}, "
-                        f"got {o['code']} (assembly: {al}, {a['length'] if a else None} bytes)")
+                        f"got {'a handler invocation' if pending else o['code']} "
+                        f"(assembly: {al}, {a['length'] if a else None} bytes)")
             if got in (408, 400):
                 if seen:
                     return f"handler invoked although the block was refused with {o['code']}"
@@ -367,12 +431,12 @@ class Reference:
                 a["last"] = now
                 a["certain"] = True
             if more:
+                if seen:
+                    return "handler invoked on an intermediate block"
                 if o["code"] != 95:
                     return f"intermediate block answered {o['code']}, not 2.31"
                 if o["b1"] != (num, 1 if more else 0, szx):
                     return f"2.31 carries Block1 {o['b1']}, not the request's {tuple(b1)}"
-                if seen:
-                    return "handler invoked on an intermediate block"
                 if o["payload"] and not o["exc"]:
                     return "2.31 with payload"
                 return ""
@@ -385,15 +449,7 @@ class Reference:
         # (RFC 7959 2.3: the Block2 option of the request that gets the response; aiocoap's own client
         # repeats a block size wish on every Block1 block).
         gb2 = st["b2"]
-        v = self.stage2(now, key, gb2, R, o, seen, body, st, (mps, mps_fit), hexc, commit=False)
-        if v == "":
-            self.stage2(now, key, gb2, R, o, seen, body, st, (mps, mps_fit), hexc, commit=True)
-        return v
-
-    def stage2(self, now, key, gb2, R, o, seen, body, st, mpss, hexc, commit):
-        mps, mps_fit = mpss
-        fresh = gb2 is None or gb2[0] == 0
-        if fresh:
+        if gb2 is None or gb2[0] == 0:
             if len(seen) != 1:
                 return "complete request did not reach the handler"
             if seen[0][1] != body:
@@ -401,25 +457,59 @@ class Reference:
                         f"concatenation ({len(body)} bytes) of the blocks received under this key")
             if seen[0][0] != st["code"]:
                 return "handler saw another request code"
-            if hexc:
-                # the latest block-0 request has no rendering: nothing may be served for later blocks
-                if not (o["exc"] and o["code"] == EXC_CODES[hexc]):
-                    return f"handler raised {hexc}, answered {o['code']}"
-                if o["b2"] is not None:
-                    return f"error response to a raising handler carries Block2 {o['b2']}"
-                if commit:
-                    self.rend.pop(key, None)
-                return ""
-            v = check_block2(gb2, R, o, mps, mps_fit)
-            if v:
-                return v
-            if st["b1"] is not None and o["b1"] != (st["b1"][0], 1 if st["b1"][1] else 0, st["b1"][2]):
-                return f"final response carries Block1 {o['b1']}, not the request's {tuple(st['b1'])}"
-            if commit:
-                self.rend[key] = {"R": R, "last": now, "kept": o["b2"] is not None}
-            return ""
+            # from its arrival on this is the latest block-0 request of the endpoint: later blocks are
+            # served from its rendering and from no other -- which does not exist before the handler ends
+            self.building[key] = idx
+            self.pending[idx] = {"kind": "fresh", "key": key, "gb2": gb2, "R": R, "hexc": hexc,
+                                 "b1": st["b1"], "mps": mps, "mps_fit": mps_fit}
+            return "" if pending else self.finish(now, idx, o)
         if seen:
             return "handler invoked for a later Block2 block"
+        if key in self.building:
+            if not (o["code"] == 136 and o["exc"]):
+                return (f"later Block2 block {tuple(gb2)} answered {o['code']} while the latest block-0 request of "
+                        f"this endpoint has no rendering yet (its handler is still running)")
+            return ""
+        return self.later(now, key, gb2, o, mps)
+
+    def finish(self, now, idx, o):
+        """the handler invoked for step `idx` has ended; `o` is the response"""
+        ctx = self.pending.pop(idx, None)
+        if ctx is None:
+            return ""
+        hexc = ctx["hexc"]
+        if o["code"] >= 160 and o["exc"] and not hexc:
+            return f"5.xx response {o['code']} ({o['exc']})"
+        if ctx["kind"] == "plain":
+            if hexc and not (o["exc"] and o["code"] == EXC_CODES[hexc]):
+                return f"handler raised {hexc}, answered {o['code']}"
+            return ""
+        key = ctx["key"]
+        latest = self.building.get(key) == idx
+        if hexc:
+            # this block-0 request has no rendering
+            if not (o["exc"] and o["code"] == EXC_CODES[hexc]):
+                return f"handler raised {hexc}, answered {o['code']}"
+            if o["b2"] is not None:
+                return f"error response to a raising handler carries Block2 {o['b2']}"
+            if latest:
+                del self.building[key]
+                self.rend.pop(key, None)      # nothing may be served for later blocks
+            return ""
+        # whatever happened in the meantime, a block-0 request is answered from its own rendering
+        v = check_block2(ctx["gb2"], ctx["R"], o, ctx["mps"], ctx["mps_fit"])
+        if v:
+            return v
+        b1 = ctx["b1"]
+        if b1 is not None and o["b1"] != (b1[0], 1 if b1[1] else 0, b1[2]):
+            return f"final response carries Block1 {o['b1']}, not the request's {tuple(b1)}"
+        if latest:
+            del self.building[key]
+            self.rend[key] = {"R": ctx["R"], "last": now, "kept": o["b2"] is not None}
+        # else: a newer block-0 request has arrived since; its rendering is the one later blocks come from
+        return ""
+
+    def later(self, now, key, gb2, o, mps):
         r = self.rend.get(key)
         al = "no"
         if r:
@@ -429,7 +519,7 @@ class Reference:
         if o["code"] == 136 and o["exc"]:
             if al == "yes":
                 return "later block of a rendering used less than MAX_TRANSMIT_WAIT ago answered 4.08"
-            if commit and r:
+            if r:
                 del self.rend[key]
             return ""
         if al == "no":
@@ -440,25 +530,28 @@ class Reference:
         if start >= len(body_r):
             if not (o["code"] == 128 and o["exc"]):
                 return f"block {tuple(gb2)} beyond the end of the rendering answered {o['code']}, not 4.00"
-            if commit:
-                r["last"] = now
-                r["kept"] = True
+            r["last"] = now
+            r["kept"] = True
             return ""
         v = check_block2(gb2, r["R"], o, mps)
         if v:
             return v
-        if commit:
-            r["last"] = now
-            r["kept"] = True
+        r["last"] = now
+        r["kept"] = True
         return ""
 
 
 def oracle_script(script, obs):
-    ref = Reference(script["eps"])
+    ref = Reference(script["eps"], site=bool(script.get("site")) and script.get("kind") != "D")
     now = 0
     for i, (st, o) in enumerate(zip(script["steps"], obs)):
         now += st["dt"]
-        v = ref.step(now, st, o)
+        if "fin" in st:
+            v = "" if o.get("none") else ref.finish(now, st["fin"], o)
+            if v:
+                return f"step {i}: {v}", i
+            continue
+        v = ref.step(now, i, st, o)
         if not v and o.get("obs_payload") is not None and o["seen"]:
             # an observation was set up on this request: every later notification is rendered from the request
             # the resource was handed for it, so that must be the request the handler saw -- the whole body
@@ -1107,9 +1200,9 @@ def oracle_key(a, b, r):
 # ----------------------------------------------------------------------------- entry points
 
 def script_nontrivial(obs, script):
-    multi = any(o["seen"] and st["b1"] is not None and st["b1"][0] > 0 for st, o in zip(script["steps"], obs))
-    later = any(o["b2"] is not None and o["b2"][0] > 0 for o in obs)
-    refused = any(o["code"] in (136, 128) and o["exc"] for o in obs)
+    multi = any(o.get("seen") and st.get("b1") is not None and st["b1"][0] > 0 for st, o in zip(script["steps"], obs))
+    later = any(o.get("b2") is not None and o["b2"][0] > 0 for o in obs)
+    refused = any(o.get("code") in (136, 128) and o.get("exc") for o in obs)
     return (multi or later) and refused
 
 
@@ -1152,14 +1245,28 @@ def run(env, rep):
         impl.append(out)
         rep.case(script, nontrivial=script_nontrivial(obs, script), sample_every=400)
         rep.count("R:endpoints=%d" % len(script["eps"]))
+        if script.get("site"):
+            rep.count("R:through-site")
+        overl = 0
         for k, o, st in zip(kinds, obs, script["steps"]):
             rep.count("R:step=" + k)
             total += 1
+            if "fin" in st:
+                overl -= 0 if o.get("none") else 1
+                rep.count("R:handler-ends=" + ("not-pending" if o.get("none") else
+                                                ("raised" if o["exc"] else "rendered")))
+                continue
+            if o.get("pending"):
+                overl += 1
+                rep.count("R:handlers-under-way=%d" % min(overl, 4))
+                continue
             if k.split("_")[-1] in ("skip", "repeat", "first", "size", "size0", "beyond", "resize", "done"):
                 deviations += 1
             cls = {95: "2.31", 136: "4.08", 128: "4.00"}.get(o["code"], "%d.xx" % (o["code"] >> 5)) \
                 if (o["exc"] or o["code"] == 95) else "rendered"
             rep.count("R:response=" + cls)
+            if overl > 0:
+                rep.count("R:answered-while-a-handler-is-under-way=" + cls)
             if o["seen"]:
                 rep.count("R:handler=" + ("assembled" if st["b1"] is not None and st["b1"][0] > 0 else "single"))
                 if h_exc(st["h"]):
@@ -1173,10 +1280,12 @@ def run(env, rep):
                 plen = len(mk_bytes(st["payload"]))
                 bsz = block_size(st["b1"][2])
                 if st["b1"][1]:
-                    bad = not (plen == bsz or (st["b1"][2] == 7 and plen % 1024 == 0))
+                    bad = not (plen == bsz or (st["b1"][2] == 7 and plen % 1024 == 0 and plen > 0))
                 else:
                     bad = st["b1"][2] != 7 and plen > bsz
                 rep.count("R:block0=" + ("more" if st["b1"][1] else "final") + ("+wrong-size" if bad else ""))
+            if st["b1"] is not None and st["b1"][1] and st["b1"][2] == 7 and not mk_bytes(st["payload"]):
+                rep.count("R:empty-bert-block-with-more")
             if st["b1"] is not None and st["b2"] is not None:
                 rep.count("R:block1-with-block2=" + ("final" if not st["b1"][1] else
                                                      ("first" if st["b1"][0] == 0 else "middle"))
@@ -1197,7 +1306,7 @@ def run(env, rep):
     for o in outs:
         for tok in o.split(" "):
             f = tok.split("|")
-            if len(f) != 7:
+            if len(f) != 7 or f[0] == "~":
                 continue
             if f[6] != "-":
                 rep.count("model:observable-entry=" + f[6])
@@ -1224,9 +1333,9 @@ def run(env, rep):
         dimpl.append(out)
         rep.case(case, nontrivial=script_nontrivial(obs, script), sample_every=2000)
         for o in obs:
-            if o["exc"]:
+            if o.get("exc"):
                 rep.count("D:exception=" + o["exc"])
-        v, idx = oracle_script(script, obs)
+        v, idx = oracle_script(case, obs)
         if v:
             rep.oracle_fail(case, v, key="D:" + v.split(": ", 1)[1][:60])
     compare(env, rep, dcases, dlines, dimpl, what="Block1Spool/Block2Cache")
@@ -1262,7 +1371,7 @@ def run(env, rep):
             toks = []
             for m in ms:
                 rid = ids.setdefault(m.remote.blockwise_key, len(ids))
-                toks.append(f"{rid},{int(m.code)},{U.opts_str(U.opts_of(m))}")
+                toks.append(f"{rid},{int(m.code)},{U.opts_str(U.opts_of(m))},-")
             case = {"kind": "K", "a": list(a), "b": list(b)}
             cases.append(case)
             lines.append("C06 K " + " ".join(toks))
